@@ -31,14 +31,12 @@ def main():
             continue
         prop = re.match(r"(C\d\d)", name).group(1)
         props = "all" if wide else prop
-        if sh(f"git -C /repo apply {patch}").returncode != 0:
+        # the edit is applied in memory (overlay); /repo is not modified
+        r = sh(f"/verif/bin/verif-sa check -prop {props} -tier quick -patch {patch}")
+        if r.returncode == 2:
             results[name] = {"property": prop, "applies": False}
             print(name, "DOES NOT APPLY")
             continue
-        try:
-            r = sh(f"/verif/check {props} quick")
-        finally:
-            sh("git -C /repo checkout -- . && git -C /repo clean -fdq")
         fails = re.findall(r"^  FAIL (\S+) (\S+) \[([^\]]+)\]", r.stdout, re.M)
         undec = re.findall(r"^  UNDECIDED (.*)$", r.stdout, re.M)
         viol = re.findall(r"^VIOLATION property=(\S+)", r.stdout, re.M)
